@@ -2,6 +2,7 @@ package c18
 
 import (
 	"fmt"
+	"os"
 	"sort"
 	"strings"
 	"sync"
@@ -32,13 +33,14 @@ type gop struct {
 }
 
 type gseq struct {
-	On      bool
-	ExpiryS int
-	SweepMs int
-	IPs     []string
-	Black   []int // indices into IPs that are blacklisted
-	BlackF  int
-	Ops     []gop
+	On        bool
+	Staggered bool // three IPs banned 0.7-1.3 s apart, each ban's end awaited
+	ExpiryS   int
+	SweepMs   int
+	IPs       []string
+	Black     []int // indices into IPs that are blacklisted
+	BlackF    int
+	Ops       []gop
 }
 
 func genSeq(timed bool) *rapid.Generator[gseq] {
@@ -107,6 +109,36 @@ func genSeq(timed bool) *rapid.Generator[gseq] {
 			}
 			script = flat
 			nops = len(script)
+		}
+		// Staggered bans (added after seeded change C18-w: a sweep short-cut that, once one expired ban had been removed while two
+		// others were still running, waited for the LATEST of them - the middle ban stayed in force well past its own expiry).
+		// Three different IPs are banned 0.7-1.3 s apart, then each ban's end is awaited in order; "every ban ends on its own" is
+		// judged by the same model bound as everywhere (expiry + sweep period + slack).
+		if timed && len(s.IPs) >= 3 && rapid.IntRange(0, 4).Draw(t, "staggered") == 0 {
+			s.ExpiryS = 2
+			s.Black = nil
+			mk := func(kind string, ip int) gop {
+				return gop{Kind: kind, IP: ip, Form: rapid.IntRange(0, nForms-1).Draw(t, "stForm"), Port: 4001, PID: rapid.IntRange(0, len(peerIDs)-1).Draw(t, "stPid"),
+					Rot: rapid.IntRange(0, nGates-1).Draw(t, "stRot")}
+			}
+			for k := 0; k < 3; k++ {
+				o := mk("pen", k)
+				o.AmtKind, o.Amt = "fix", rapid.IntRange(100, 150).Draw(t, "stAmt")
+				s.Ops = append(s.Ops, o)
+				if k < 2 {
+					sl := mk("sleep", k)
+					sl.Ms = rapid.SampledFrom([]int{700, 1100, 1300}).Draw(t, "stGapMs")
+					s.Ops = append(s.Ops, sl)
+				}
+			}
+			for k := 0; k < 3; k++ {
+				s.Ops = append(s.Ops, mk("await", k), mk("query", k))
+			}
+			small := mk("pen", 1)
+			small.AmtKind, small.Amt = "fix", rapid.IntRange(1, 30).Draw(t, "stAfter")
+			s.Ops = append(s.Ops, small, mk("query", 1))
+			s.Staggered = true
+			return s
 		}
 		for i := 0; i < nops; i++ {
 			o := gop{}
@@ -481,6 +513,9 @@ func runGaterSeq(s gseq, timed bool) *seqResult {
 		}
 		if st.expiries > 0 {
 			res.labels["ban-expired-and-observed"] = true
+			if s.Staggered {
+				res.labels["staggered-bans-each-end-awaited"] = true
+			}
 		}
 	}
 	res.key = key.String()
@@ -573,7 +608,7 @@ func TestGaterConcurrent(t *testing.T) {
 		defer g.Stop()
 		var wg sync.WaitGroup
 		var stop atomic.Bool
-		var flip atomic.Int64   // reader saw accepted after refused
+		var flip atomic.Int64     // reader saw accepted after refused
 		var refOther atomic.Int64 // reader saw the unpenalised IP refused
 		for rdr := 0; rdr < 3; rdr++ {
 			wg.Add(1)
@@ -640,5 +675,62 @@ func TestGaterConcurrent(t *testing.T) {
 			rt.Fatalf("C18 violated (concurrent): %s: unpenalised IP %s was refused %d times", desc, other, refOther.Load())
 		}
 		evid.R.Case(fmt.Sprintf("conc %d %d %d %s", k, per, amt, ip), banned && k*per >= 2, nil, "gater-concurrent", fmt.Sprintf("concurrent-banned=%v", banned))
+	})
+}
+
+// TestGaterTimedStaggered: the long form of the staggered-bans sequence. The bound that turns "still refused" into a violation is
+// generous (expiry + 1 s + sweep + 3 s slack, see common_test.go), so a ban that outlives its expiry by the distance to a LATER ban
+// is only visible when that distance exceeds the bound AND the 600 heartbeats (>= 3 s) over which a "should be over by now" verdict must
+// persist: expiry 12 s, bans at 0 s, ~1.3 s and ~11 s - with seeded change C18-w the middle ban lasts until the last one ends, ~10 s
+// late (tolerance ~7.2 s). One sequence per quick run (it takes ~24 s), four per thorough shard.
+func TestGaterTimedStaggered(t *testing.T) {
+	limit := 1
+	if evid.Thorough() {
+		limit = 4
+	}
+	runs := 0
+	rapid.Check(t, func(rt *rapid.T) {
+		runs++
+		if runs > limit && os.Getenv("VERIF_REPLAY") == "" {
+			return
+		}
+		perm := rapid.Permutation(ipPool).Draw(rt, "ips")
+		s := gseq{On: true, Staggered: true, ExpiryS: 12, SweepMs: rapid.SampledFrom([]int{50, 100, 200}).Draw(rt, "sweepMs"), IPs: dedup(append([]string{}, perm[:3]...))}
+		if len(s.IPs) < 3 {
+			return
+		}
+		mk := func(kind string, ip int) gop {
+			return gop{Kind: kind, IP: ip, Form: rapid.IntRange(0, nForms-1).Draw(rt, "form"), Port: 4001, PID: rapid.IntRange(0, len(peerIDs)-1).Draw(rt, "pid"),
+				Rot: rapid.IntRange(0, nGates-1).Draw(rt, "rot")}
+		}
+		gaps := []int{rapid.SampledFrom([]int{1100, 1300, 1600}).Draw(rt, "gap1"), rapid.SampledFrom([]int{9600, 10000}).Draw(rt, "gap2")} // gap1 above one second: expiries are whole unix seconds
+		for k := 0; k < 3; k++ {
+			o := mk("pen", k)
+			o.AmtKind, o.Amt = "fix", rapid.IntRange(100, 150).Draw(rt, "amt")
+			s.Ops = append(s.Ops, o)
+			if k < 2 {
+				sl := mk("sleep", k)
+				sl.Ms = gaps[k]
+				s.Ops = append(s.Ops, sl)
+			}
+		}
+		for k := 0; k < 3; k++ {
+			s.Ops = append(s.Ops, mk("await", k), mk("query", k))
+		}
+		small := mk("pen", 1)
+		small.AmtKind, small.Amt = "fix", rapid.IntRange(1, 30).Draw(rt, "after")
+		s.Ops = append(s.Ops, small, mk("query", 1))
+		res := runGaterSeq(s, true)
+		if os.Getenv("VERIF_C18_SHOW") != "" {
+			fmt.Println(res.render())
+		}
+		if res.infra != "" {
+			rt.Fatalf("harness problem: %s\n%s", res.infra, res.render())
+		}
+		if res.violation != "" {
+			rt.Fatalf("C18 violated (gater, staggered bans): %s\nhistory:\n%s", res.violation, res.render())
+		}
+		res.labels["staggered-bans-long-form"] = true
+		register("gater-timed", res)
 	})
 }
